@@ -918,6 +918,9 @@ def _normalised(tree, fname, keep):
     pars = [a.arg for a in fn.args.args + fn.args.kwonlyargs]
     body = _simplify(copy.deepcopy(body_no_doc(fn)), funcs, set(keep), [0])
     body = _expand_aliases(_flatten(body), pars)
+    while body and isinstance(body[-1], ast.Return) and (body[-1].value is None or (
+            isinstance(body[-1].value, ast.Constant) and body[-1].value.value is None)):
+        body = body[:-1]                                   # a bare `return` at the very end
     new = ast.FunctionDef(name=fn.name, args=fn.args, body=body or [ast.Pass()], decorator_list=fn.decorator_list,
                           returns=fn.returns, lineno=fn.lineno, col_offset=0)
     return ast.fix_missing_locations(new)
